@@ -188,9 +188,9 @@ def gen():
         sh = ty.replace("palette::encoding::", "").replace("palette::white_point::", "").replace("palette::rgb::channels::", "") \
                .replace("palette::luma::", "").replace("palette::blend::", "").replace("palette::cast::", "").replace("palette::", "")
         allc = f"all {C} bit patterns"
-        primary = key in PRIMARY  # full length / capacity enumeration in the quick tier; the others keep 0, 1, N, N+1, 2N there
-        quick_try = lambda k: primary or k in (0, 1, n, n + 1, 2 * n)
-        quick_chain = lambda k: primary or k != 2
+        primary = key in PRIMARY  # full length / capacity enumeration in the quick tier; the others keep 0, N, N+1, 2N (chains: 0, 3) there
+        quick_try = lambda k: primary or k in (0, n, n + 1, 2 * n)
+        quick_chain = lambda k: primary or k in (0, 3)
         o.harness(f"c04_{key}_value", f"{sh} by value: into_array lists the components in {ORDER}, from_array is its inverse, round trips are bit-identical",
                   f"check_value::<{ty}, {C}, {n}>();", ["palette::cast::into_array", "palette::cast::from_array"], allc, unwind=n + 2)
         o.harness(f"c04_{key}_ref", f"{sh} by shared reference: into_array_ref / from_array_ref return the address they were given and show the components in {ORDER}",
